@@ -61,7 +61,7 @@ Idle == [k |-> 0]
 \* non-registered and the user supplied no superficial-loss figures
 Qualifies(seg) ==
   /\ \A n \in DOMAIN seg.afs : ~seg.afs[n][2]
-  /\ \A n \in DOMAIN seg.rows : ~seg.rows[n].hasSfl
+  /\ \A n \in DOMAIN seg.rows : ~seg.rows[n].hasSfl /\ seg.rows[n].act # "Sfla"
 
 Load ==
   LET seg == Seg
@@ -219,8 +219,10 @@ OffendingDays(R, i, why) ==
 
 EndSeg(mm, seg) ==
   CASE seg.status = "ok" ->
+         Chk(~(mm.pend = {} /\ mm.i <= Len(mm.R) /\ mm.R[mm.i].grp), "splitexp",
+             "split for all affiliates was not applied to " \o mm.R[mm.i].af,
          Chk(mm.pend = {} /\ mm.i = Len(mm.R) + 1, "reject", "reported success without processing every row",
-         Ok(Idle))
+         Ok(Idle)))
     [] seg.status = "rejected" ->
          Chk(mm.pend = {}, "adjust", "automatic adjustments missing before the rejection",
          Chk(mm.i <= Len(mm.R), "reject", "rejected although every row had been processed: " \o seg.msg,
@@ -253,8 +255,8 @@ Conclude(r) ==
   /\ l' = l + 1
   /\ m' = Idle
   /\ tally' = Bump(r.v)
-  /\ (r.v = "fail" => PrintT(<<"FAIL", Seg.id, Seg.sec, r.cls, r.detail>>))
-  /\ (r.v = "ambig" => PrintT(<<"AMBIG", Seg.id, Seg.sec, r.detail>>))
+  /\ (r.v = "fail" => PrintT("@@FAIL " \o ToJson([id |-> Seg.id, sec |-> Seg.sec, line |-> l, cls |-> r.cls, detail |-> r.detail])))
+  /\ (r.v = "ambig" => PrintT("@@AMBIG " \o ToJson([id |-> Seg.id, sec |-> Seg.sec, line |-> l, detail |-> r.detail])))
 
 Next ==
   /\ l <= Len(Segs)
@@ -279,6 +281,6 @@ SpecConserved == (m.k > 0 /\ m.qual /\ ~m.fS /\ m.pend = {}) => Conserved(m.A, m
 
 \* acceptance: every segment consumed; the summary line is parsed by bin/check
 Done == l = Len(Segs) + 1
-Summary == Done => PrintT(<<"SUMMARY", tally>>)
+Summary == Done => PrintT("@@SUMMARY " \o ToJson(tally))
 Accepted == TLCGet("stats").diameter >= Len(Segs) + 1
 =============================================================================
